@@ -27,7 +27,8 @@ func crashAlphabet() []fsx.Op {
 		{K: "WRITE", H: "root/f", Off: 4096, Cnt: 20 * 4096, Pat: 0x43, Stable: 0},
 		{K: "COMMIT", H: "root/f"},
 		{K: "SETATTR", H: "root/f", Size: 100},
-		{K: "SETATTR", H: "root/big", Size: 5000}, // large truncation: freed in the background
+		{K: "SETATTR", H: "root/f", NoSize: true, Mtime: 777}, // attributes alone
+		{K: "SETATTR", H: "root/big", Size: 5000},             // large truncation: freed in the background
 		{K: "RENAME", H: "root", N: "f", H2: "root", N2: "g"},
 		{K: "RENAME", H: "root", N: "a", H2: "root", N2: "f"},
 		{K: "REMOVE", H: "root", N: "f"},
